@@ -164,6 +164,21 @@ def gen_quantum_script(rng):
     return '\n'.join(L) + '\n'
 
 
+def gen_close_pending_script(rng):
+    """close() while an index dump is deferred far into the future (the default times are 60 s / 180 s): the worker has to
+    stop when its channel is closed, not when the deferred dump comes due."""
+    K = 4
+    L = ['cfg K=4 dup=1 group=%d bloom=none init=eager runtime=%s defer=%s nomodel=1' % (rng.choice([2, 8]), rng.choice(['mt', 'ct']), rng.choice(['60000:180000', '30000:max', '40000:40000'])), 'open']
+    for i in range(rng.choice([1, 3])):
+        L.append('W %s 5 - 5 %d' % ((i + 1).to_bytes(K, 'big').hex(), i + 1))
+    L += ['close_active', 'create_active', 'autoquiesce 0']
+    L.append('D %s 9 - 1' % (1).to_bytes(K, 'big').hex())
+    if rng.random() < 0.5:
+        L.append('sleep %d' % rng.choice([10, 200]))
+    L.append('close')
+    return '\n'.join(L) + '\n'
+
+
 def gen_rotation_script(rng):
     """Rotation after a rotation request that came to nothing: the switch asked for by an overflowing write FAILS (the
     file of the next blob cannot be created) or has become MOOT when the worker gets to it (the full blob was closed by
@@ -208,7 +223,7 @@ def gen_rotation_script(rng):
 def gen(tier, rng):
     n = 96 if tier == 'quick' else 1500
     return [('bg%05d' % i, gen_script(rng)) for i in range(n)] + [('spaced%05d' % i, gen_spaced_script(rng)) for i in range(n // 4)] + \
-           [('deferred%05d' % i, gen_deferred_script(rng)) for i in range(n // 6)] + [('rotation%05d' % i, gen_rotation_script(rng)) for i in range(n // 4)] + [('busy%05d' % i, gen_busy_deferred_script(rng)) for i in range(n // 10)] + [('quantum%05d' % i, gen_quantum_script(rng)) for i in range(n // 10)]
+           [('deferred%05d' % i, gen_deferred_script(rng)) for i in range(n // 6)] + [('rotation%05d' % i, gen_rotation_script(rng)) for i in range(n // 4)] + [('busy%05d' % i, gen_busy_deferred_script(rng)) for i in range(n // 10)] + [('quantum%05d' % i, gen_quantum_script(rng)) for i in range(n // 10)] + [('closepending%05d' % i, gen_close_pending_script(rng)) for i in range(n // 10)]
 
 
 def next_of(line):
